@@ -28,7 +28,7 @@ fn is_observer(k: &OpKind) -> bool {
     | OpKind::Map { .. }
     | OpKind::Stream { .. }
     | OpKind::ToWriter { .. } => true,
-    OpKind::CloneThen { then } => is_observer(then),
+    OpKind::CloneThen { then } | OpKind::ChildFault { then, .. } => is_observer(then),
     _ => false,
   }
 }
@@ -59,7 +59,7 @@ pub fn is_overflow_panic(m: &str) -> bool {
 /// observer it runs on the clone.
 fn judge_class(k: &OpKind) -> &'static str {
   match k {
-    OpKind::CloneThen { then } => judge_class(then),
+    OpKind::CloneThen { then } | OpKind::ChildFault { then, .. } => judge_class(then),
     other => other.class(),
   }
 }
@@ -67,7 +67,7 @@ fn judge_class(k: &OpKind) -> &'static str {
 pub fn is_positional_op(k: &OpKind) -> bool {
   match k {
     OpKind::Map { .. } | OpKind::Stream { .. } => true,
-    OpKind::CloneThen { then } => is_positional_op(then),
+    OpKind::CloneThen { then } | OpKind::ChildFault { then, .. } => is_positional_op(then),
     _ => false,
   }
 }
@@ -323,6 +323,7 @@ fn strip_abort(k: &OpKind) -> OpKind {
     OpKind::CloneThen { then } => OpKind::CloneThen {
       then: Box::new(strip_abort(then)),
     },
+    OpKind::ChildFault { then, .. } => strip_abort(then),
     other => other.clone(),
   }
 }
@@ -691,7 +692,9 @@ pub fn check_strict(
     for (i, op) in ops.iter().enumerate() {
       let a = &outcome.answers[t][i];
       if matches!(a, Answer::NotRun | Answer::Aborted { .. }) {
-        if matches!(a, Answer::Aborted { .. }) {
+        if matches!(a, Answer::Aborted { chunks_before: u32::MAX }) {
+          counters.inc("fault:collaborator_unwind_fired");
+        } else if matches!(a, Answer::Aborted { .. }) {
           counters.inc("fault:stream_cancelled_fired");
         }
         continue;
@@ -745,8 +748,8 @@ pub fn check_strict(
         continue;
       }
       let e = &expected[t][i];
-      let inner_kind = match &op.kind {
-        OpKind::CloneThen { then } => (**then).clone(),
+      let inner_kind = match op.kind.without_fault() {
+        OpKind::CloneThen { then } => then.without_fault().clone(),
         k => k.clone(),
       };
       if let OpKind::ToWriter { plan } = &inner_kind {
@@ -920,8 +923,8 @@ pub fn check_strict(
     let mut filled_by: BTreeMap<bool, &str> = BTreeMap::new(); // columns -> first filler
     let mut aborted_first: BTreeMap<bool, bool> = BTreeMap::new();
     for (i, op) in scn.threads[0].iter().enumerate() {
-      let inner = match &op.kind {
-        OpKind::CloneThen { then } => (**then).clone(),
+      let inner = match op.kind.without_fault() {
+        OpKind::CloneThen { then } => then.without_fault().clone(),
         k => k.clone(),
       };
       let was_aborted = matches!(outcome.answers[0][i], Answer::Aborted { .. });
